@@ -137,12 +137,18 @@ class CondGen(object):
             sw = r.choice(self.switches)
             out += '\\%s%s ' % (sw[2:], r.choice(['true', 'false']))
             self.features.add('setter-in-branch')
+        if r.random() < 0.08:
+            out += '\\gdef\\zqlate%s{}' % alpha(r.randint(0, 2))
+            self.features.add('global-definition-in-branch')
         if depth < self.maxdepth and r.random() < 0.45:
             out += self.conditional(depth + 1)
             if r.random() < 0.3:
                 out += self.conditional(depth + 1)
         if r.random() < 0.2:
             out += ' T' + name[2:] + ' '
+        if r.random() < 0.12:
+            out += '\\gdef\\zqlate%s{}' % alpha(r.randint(0, 2))
+            self.features.add('global-definition-in-branch')
         if r.random() < 0.1:
             # a macro whose name starts with `if` but which is no conditional (like \ifthenelse, \iflanguage): it does not nest
             self.helpers.add('ifzqmac')
@@ -218,8 +224,13 @@ class CondGen(object):
                 if nm == 'zqrlx':
                     self.helpers.add('zqrlx')
                 self.features.add('ifdefined-relax-meaning')
-            else:
+            elif k2 < 0.8:
                 nm = 'zqundef' + alpha(r.randint(0, 5))
+            else:
+                # a name that is given a global definition somewhere in the middle of the run: tests before it see it undefined, tests
+                # after it (also in a scope that has already made such tests) see it defined
+                nm = 'zqlate' + alpha(r.randint(0, 2))
+                self.features.add('ifdefined-name-defined-midway')
             test = '\\ifdefined\\%s ' % nm
         else:
             if not self.switches or r.random() < 0.3:
@@ -294,6 +305,10 @@ class CondGen(object):
                 self.regs[nm] = v
                 body += '\\%s%s%d%s' % (nm, r.choice(['=', '=', ' = ', ' ']), v, r.choice(['\\relax ', ' ']))
                 self.features.add('register-assignment')
+        if r.random() < 0.3:
+            # the whole run inside one group: every placed conditional shares a scope that is not the outermost one
+            body = r.choice(['{%s}', '\\begingroup %s\\endgroup ']) % body
+            self.features.add('run-inside-one-group')
         pre = ''
         for name in self.branches:
             pre += '\\newcounter{%s}' % name
